@@ -3,6 +3,7 @@ import itertools
 from ..codecgen import codec_cases
 from ..gen import hexs
 from ..runner import Case, Property
+from .. import refho
 
 XS = ["0", "256", "192.7", "-5.9", "131072", "131072.5", "-131072", "131073", "1e3", "abc", "", "nan", "inf", " 12 ", "511.99999", "2147483648", "-0.5", "+7"]
 TIMES = ["0", "1000", "-500", "1234.5", "2147483647", "2147483648", "nan", "abc", "", "1e3", "-0", "0.1"]
@@ -32,9 +33,26 @@ class C14(Property):
     lean_module = "RosuModel.Props.C14"
     namespace = "Rosu.C14"
     design_ref = "5.14"
-    required_theorems = []
-    partial_theorems = {}
-    level_text = ""
+    required_theorems = ["kind_precedence", "maskedType_bits", "unknown_type_rejected", "bad_header_rejected", "accepted_pushes_one",
+                         "rejected_keeps_objects", "buildSlider_frame", "combo_offset_range", "combo_offset_needs_new_combo",
+                         "newCombo_is_bit2", "forced_new_combo", "circle_fields", "repeat_cap", "storedRepeatCount_eq", "node_count",
+                         "slider_fields", "length_absent", "length_present", "length_bad_rejects", "spinner_fields", "max_zero_nonneg",
+                         "position_truncated", "perfect_three_collinear_linear", "perfect_three_noncollinear_kept", "perfect_other_bezier",
+                         "non_perfect_unchanged", "soundType_range", "sound_byte_to_samples", "addition_names", "filename_sample",
+                         "base_sample_layered", "bank_info_fields"]
+    partial_theorems = {
+        "path splitting (duplicate_splits, segment_end_point_shared, first_point_origin_typed)": "the splitting loop of convert_points is modelled (splitLoop) and compared "
+            "with the code and with the independent reference grammar on every run, but its closed-form characterisation is not proved in Lean",
+        "max_zero_nonneg / durations": "proved from three order facts about `<` (irreflexive, asymmetric, false on NaN) taken as hypotheses; the hold duration "
+            "`max(start,end) - start ≥ 0` additionally needs field laws and is only exercised",
+    }
+    level_text = ("Lean 4 theorems over the model of parse_hit_objects / convert_path_str / read_custom_sample_banks / convert_sound_type: flag precedence "
+                  "circle > slider > spinner > hold on the masked type (combo bits cleared, kind bits untouched), unknown type or bad header ⇒ rejected without effect, "
+                  "an accepted line pushes exactly one object of the selected class with the line's start time and remembers the masked type, combo offset only with the "
+                  "new-combo bit, forced new combo for first object / after spinner, repeat cap 9000, repeats+2 node sample sets, length none/some rule, spinner duration "
+                  "max(end-start,0), position = truncated f32 parse, perfect-curve downgrade rules, hit-sound byte → sample list, bank field semantics. Tied to the code by a "
+                  "field-wise differential through the public parse_hit_objects (all 256 type bytes, all 256 sound bytes, extras/path/edge shapes, sequences), and judged "
+                  "by an independent reference parser written from the legacy grammar (lib/refho.py).")
     technique = "Lean 4 proof (decision-logic theorems over the hit-object line parser model) + field-wise differential correspondence"
     trusted_base = [
         "Lean 4.33.0 kernel; axioms ⊆ {propext, Classical.choice, Quot.sound} per #print axioms",
@@ -125,6 +143,16 @@ class C14(Property):
             add(rng.randint(0, 3), lines, "random")
         cases += codec_cases(rng, 1000 if tier == "quick" else 30000)
         return cases
+
+    def py_oracle(self, case, impl_out):
+        t = case.line.split()
+        if t[0] != "ho":
+            return None
+        ls = [bytes.fromhex(h).decode("utf-8", "replace") if h != "-" else "" for h in t[2:]]
+        want = refho.run(int(t[1]), ls)
+        if want == impl_out:
+            return "OK"
+        return f"FAIL reference grammar gives [{want[:1500]}] implementation gives [{impl_out[:1500]}]"
 
     def is_nontrivial(self, case, impl_out):
         return " n=0" not in impl_out and impl_out.startswith("ok=")
